@@ -79,6 +79,52 @@ func proxyRoute(b []byte) (host string, looked bool) {
 	return
 }
 
+// chunkConn delivers the same bytes as scriptConn but in small pieces (a TCP stream has no message boundaries:
+// what Peek(9) and io.ReadFull see must not depend on how the bytes arrive). The piece sizes are a function of
+// the bytes themselves, so a replay sees the same delivery.
+type chunkConn struct {
+	scriptConn
+	state uint64
+}
+
+func newChunkConn(in []byte) *chunkConn {
+	h := uint64(1469598103934665603)
+	for _, c := range in {
+		h = (h ^ uint64(c)) * 1099511628211
+	}
+	c := &chunkConn{state: h | 1}
+	c.r = bytes.NewReader(in)
+	return c
+}
+
+func (c *chunkConn) Read(p []byte) (int, error) {
+	c.state = c.state*6364136223846793005 + 1442695040888963407
+	v := int(c.state >> 33)
+	n := 1
+	switch v % 4 {
+	case 1:
+		n = 1 + (v>>2)%16
+	case 2:
+		n = 1 + (v>>2)%1500
+	case 3:
+		n = []int{3, 4, 5, 8, 9, 10}[(v>>2)%6] // around the 5-byte record header and the 9 peeked bytes
+	}
+	if n < len(p) {
+		p = p[:n]
+	}
+	return c.scriptConn.Read(p)
+}
+
+// proxyRouteChunked is proxyRoute over a connection that delivers b in pieces.
+func proxyRouteChunked(b []byte) (host string, looked bool) {
+	p := &tcp.SNIProxy{Lookup: func(h string) *route.Target {
+		host, looked = h, true
+		return nil
+	}}
+	_ = p.ServeTCP(newChunkConn(b))
+	return
+}
+
 func sizeErrClass(err error) string {
 	s := err.Error()
 	switch {
@@ -101,6 +147,7 @@ func sizeErrClass(err error) string {
 //	size / size_err : clientHelloBufferSize(b[:min(9,len)])            (what ServeTCP passes after Peek(9))
 //	ok, name        : readServerName(b[min(5,len):])                   (the whole rest as handshake message)
 //	route           : the host SNIProxy.ServeTCP hands to Lookup for a connection delivering b, or null
+//	route_chunked   : the same for a connection that delivers b in pieces of 1..1500 bytes
 //	tls_ok, tls_name: what crypto/tls's server reports in GetConfigForClient for the same bytes
 //	strict_ok, strict_name: the independent strict RFC parser of this harness (wire.go)
 func observe(b []byte) map[string]interface{} {
@@ -127,6 +174,11 @@ func observe(b []byte) map[string]interface{} {
 		out["route"] = hex.EncodeToString([]byte(host))
 	} else {
 		out["route"] = nil
+	}
+	if host, looked := proxyRouteChunked(b); looked {
+		out["route_chunked"] = hex.EncodeToString([]byte(host))
+	} else {
+		out["route_chunked"] = nil
 	}
 	tn, tok := tlsView(b)
 	out["tls_ok"] = tok
